@@ -154,7 +154,30 @@ func sharedOracle(c SCase) *ev.Verdict {
 func TestPropSharedTypes(t *testing.T) {
 	registerAll()
 	ev.Rapid(t, "shared-types", ev.N(2500, 15000), func(t *rapid.T) SCase {
-		return SCase{P: genProject(t), Vary: rapid.IntRange(0, 7).Draw(t, "vary")}
+		if rapid.IntRange(0, 3).Draw(t, "planted") == 0 {
+			return SCase{P: genProject(t), Vary: rapid.IntRange(0, 7).Draw(t, "vary")}
+		}
+		// a project that is accepted, with one more scalar type without rules and an example elsewhere that is
+		// judged through it and differs from the type's own example: pinning the type turns the verdict
+		p := gen.Project(t, gen.ProjectOpts{Satisfied: true, RegexType: true, Container: true})
+		pin, via := model.Scalar("string", `"pin"`), model.Scalar("string", rapid.SampledFrom([]string{`"other"`, `"pi"`, `"pin "`, `"Pin"`, `""`}).Draw(t, "via"))
+		if rapid.Bool().Draw(t, "pinint") {
+			pin, via = model.Scalar("integer", "7"), model.Scalar("integer", rapid.SampledFrom([]string{"8", "-7", "70", "0"}).Draw(t, "viaint"))
+		}
+		via.Rules = append(via.Rules, model.R("type", model.Str("@pin")))
+		p.Types = append(p.Types, model.Type{Name: "@pin", Node: pin})
+		switch rapid.IntRange(0, 2).Draw(t, "place") {
+		case 0:
+			p.Root = model.Obj().Add("was_root", p.Root).Add("via", via)
+		case 1:
+			p.Root = model.Obj().Add("via", model.Arr().Item(via)).Add("was_root", p.Root)
+		default:
+			// judged inside another registered type
+			p.Types = append(p.Types, model.Type{Name: "@holder", Node: model.Obj().Add("via", via)})
+			p.Root = model.Obj().Add("was_root", p.Root).Add("h", model.Ref("@holder"))
+			return SCase{P: p, Vary: len(p.Types) - 2}
+		}
+		return SCase{P: p, Vary: len(p.Types) - 1}
 	}, sharedOracle)
 }
 
